@@ -44,6 +44,22 @@ def main():
                 super().__init__(*a, **k)
 
         random.SystemRandom = SR
+    # Z3 answering "unknown" (its own 500 ms budget, i.e. machine load) sends z3_solve into a retry loop that
+    # consumes Python's random stream: such a run is marked and not compared
+    retry = []
+    real_shuffle, real_randint = random.shuffle, random.randint
+
+    def shuffle(x, *a, **k):
+        if sys._getframe(1).f_code.co_filename.endswith("z3_helpers.py"):
+            retry.append(1)
+        return real_shuffle(x, *a, **k)
+
+    def randint(lo, hi):
+        if sys._getframe(1).f_code.co_filename.endswith("z3_helpers.py"):
+            retry.append(1)
+        return real_randint(lo, hi)
+
+    random.shuffle, random.randint = shuffle, randint
     import logging
 
     logging.disable(logging.CRITICAL)
@@ -66,7 +82,7 @@ def main():
                 break
     except Exception as e:  # noqa
         end = f"{type(e).__name__}"
-    print("END:" + end)
+    print("END:" + end + (";z3-unknown-retry" if retry else ""))
     if inst.get("census"):
         print("CENSUS:" + json.dumps(sorted(set(calls))))
 
